@@ -219,3 +219,41 @@ func c09RigStream(dir string, seed int64, tier string) {
 func init() {
 	streams["c09-rig"] = c09RigStream
 }
+
+// c09-rig-file: replay of one rig case. VERIF_CASE_FILE names a text file: line 1 = the `K …` case line of the
+// stream, line 2 = the number of cores.
+func c09RigFileStream(dir string, seed int64, tier string) {
+	o := hx.Open(dir, "c09-rig-file")
+	defer o.Close()
+	raw, err := os.ReadFile(os.Getenv("VERIF_CASE_FILE"))
+	if err != nil {
+		panic(err)
+	}
+	ls := strings.Split(strings.TrimSpace(string(raw)), "\n")
+	cores, _ := strconv.Atoi(strings.TrimSpace(ls[1]))
+	var c c06RigCase
+	for _, f := range strings.Fields(ls[0]) {
+		if strings.HasPrefix(f, "memsize=") {
+			c.MemSize, _ = strconv.Atoi(f[8:])
+		}
+		if strings.HasPrefix(f, "ops=") {
+			for _, op := range strings.Split(f[4:], ",") {
+				p := strings.Split(op, ":")
+				if len(p) != 6 {
+					continue
+				}
+				n := func(s string) int { v, _ := strconv.Atoi(s); return v }
+				c.Ops = append(c.Ops, c06Op{Core: n(p[0]), Kind: p[1], Addr: int32(n(p[2])), Width: n(p[3]), Delay: n(p[4]), Val: int32(n(p[5]))})
+			}
+		}
+	}
+	var rs []string
+	for _, v := range c06Variants {
+		rs = append(rs, c09RunRig(v, cores, c, 80000))
+	}
+	o.Emit(ls[0], "G 0 "+strings.Join(rs, " @@ "))
+}
+
+func init() {
+	streams["c09-rig-file"] = c09RigFileStream
+}
